@@ -64,7 +64,9 @@ def requests(ctx, res, reqs, impls):
         agent = RA.Agent(db=[((1, 3, 6, 1, 2, 1, 1, 1, 0), ["int", 1])], v3=v3)
         seam = Seam(agent)
         ctx_name = bytes(rng.randrange(256) for _ in range(rng.choice([0, 0, 9])))
-        client = Client("127.0.0.1", creds, sender=seam, context_name=ctx_name)
+        # an explicit context engine id (proxy / sub-agent case) must not leak into the security parameters
+        ctx_engine = rng.choice([b"", b"", engine_id, b"\x80\x00\x00\x09" + bytes(rng.randrange(256) for _ in range(rng.choice([1, 8, 20])))])
+        client = Client("127.0.0.1", creds, sender=seam, context_name=ctx_name, engine_id=ctx_engine)
         rid = rng.randrange(1, 2**31)
         ncalls = len(VS.CALLS)
         with O.with_clock([rid] * 8):
@@ -100,7 +102,7 @@ def requests(ctx, res, reqs, impls):
         vbs, a, b = intended(name, args)
         enc_calls = [c for c in VS.CALLS[ncalls:] if c[0] == "encrypt"]
         req = {"op": "usm.outgoing", "creds": {"user": user.encode().hex(), "auth": authpw.hex() if auth else None, "priv": privpw.hex() if priv else None},
-               "disco": {"engine_id": engine_id.hex(), "boots": boots, "time": etime}, "ctx_engine": "", "ctx_name": ctx_name.hex(),
+               "disco": {"engine_id": engine_id.hex(), "boots": boots, "time": etime}, "ctx_engine": ctx_engine.hex(), "ctx_name": ctx_name.hex(),
                "req": {"kind": kind, "rid": rid, "a": a, "b": b, "vbs": vbs}}  # fmt: skip
         if priv and enc_calls:
             req["cipher"], req["salt"] = enc_calls[-1][6].hex(), enc_calls[-1][7].hex()
